@@ -456,5 +456,17 @@ _amend("C04", "text", "R04.27: an escaped space", "R04.28 = R16.8: minify.Decima
 _amend("C18", "text", "(R18.1-R18.12, DESIGN.md §4 C18;", "(R18.1-R18.13, DESIGN.md §4 C18; R18.13: the length count and parse.EncodeURL use the same escape table;")
 _amend("C16", "text", "Decides seven structural clauses (R16.1-R16.7,", "Decides eight structural clauses (R16.1-R16.8; R16.8 = R04.28: with KeepCSS2 no number with an exponent reaches minify.Decimal;")
 
+_amend("C01", "text", "(R01.1-R01.50;", "(R01.1-R01.53; R01.51 = R02.15: global-name tests on the resolved variable, R01.52 = R13.1 for package js, R01.53: no var initialiser is discarded;")
+_amend("C01", "text", "Decides fifty structural", "Decides fifty-three structural")
+_amend("C02", "text", "(R02.1-R02.10, R02.14:", "(R02.1-R02.10, R02.15 = R01.51, R02.14:")
+_amend("C03", "text", "Decides twenty-two local clauses (R03.1-R03.22;", "Decides twenty-four local clauses (R03.1-R03.24; R03.23: the colgroup end tag stays in front of colgroup and col, R03.24 = R13.1 for package html;")
+_amend("C04", "text", "R04.28 = R16.8:", "R04.30 = R13.1 for package css; R04.28 = R16.8 (b: no number is handed back unminified):")
+_amend("C06", "text", "Decides (R06.1-R06.10, DESIGN.md §4 C06):", "Decides (R06.1-R06.11, DESIGN.md §4 C06; R06.11 = R13.1 for package xml: no state of the minifier survives a call):")
+_amend("C09", "text", "R09.28 = R04.27 —", "R09.28 = R04.27, R09.29 = R01.38 —")
+_amend("C12", "text", "(R12.1-R12.9, DESIGN.md §4 C12;", "(R12.1-R12.10, DESIGN.md §4 C12; R12.10: the bytes a Read returned are used before its error decides;")
+_amend("C13", "text", "(R13.1-R13.9, DESIGN.md §4 C13;", "(R13.1-R13.9, DESIGN.md §4 C13; R13.6 also follows the memory a method of a pooled object returns;")
+_amend("C16", "text", "Decides eight structural clauses (R16.1-R16.8;", "Decides nine structural clauses (R16.1-R16.9; R16.9: no escape is decoded into a raw U+2028 / U+2029 in a string literal;")
+_amend("C19", "text", "(R19.1-R19.24, DESIGN.md §4 C19)", "(R19.1-R19.25, DESIGN.md §4 C19; R19.25: the hidden-name test of the walk spares the directory named on the command line)")
+
 if __name__ == "__main__":
     main()
